@@ -163,6 +163,14 @@ def run(tier: str) -> Run:
         and isinstance(outs[0].value, SVar) and outs[0].value.dtype == 'float32'
     r5.check(ok, 'as_float_type', loc(fi), {'dtype': getattr(outs[0].value, 'dtype', None) if outs else None}, key='as_float_type')
     # positive fixture: the rule must fire on a kernel that reduces over event data
+    # what is computed for the events must not depend on what was computed before (transform_coords calls a kernel for the events
+    # and again for the bin edges; a user converts bank after bank): every kernel after itself, in binned interpretation, with other
+    # units, another precision, the same units again, and the same variables updated in place by their owner
+    r7 = run.rule('R7', 'event-data results do not depend on call history (two-call histories of every kernel in one world, binned '
+                        'interpretation); no memoised object is handed out', 24)
+    from .common import history_free, kernel_histories
+    kfis = [fi for _, fi in sorted(kernels.items())]
+    history_free(repo, kfis, r7, histories=kernel_histories(repo, kfis, binned=True, cross=False))
     r6 = run.rule('R6', 'self-check: the purity rule fires on a fixture kernel that normalises by wavelength.max()', 1)
     fired = fixture_fires(repo)
     r6.check(fired, 'fixture', 'selftest/fixtures/c06_fixture.py', {'fired': fired}, key='fixture')
